@@ -175,7 +175,7 @@ fn cases(tier: Tier) -> Vec<Case> {
             // the source fails after the closed deep value (7..=9: after the root; 10..=18: while
             // an outer container under construction holds it)
             for w in words(2) {
-                for ending in 7..19 {
+                for ending in 7..20 {
                     v.push(Case {
                         word: w.clone(),
                         ending,
@@ -282,7 +282,7 @@ fn cases(tier: Tier) -> Vec<Case> {
                 }
             }
             for w in words(3) {
-                for ending in 7..19 {
+                for ending in 7..20 {
                     v.push(Case {
                         word: w.clone(),
                         ending,
@@ -534,6 +534,37 @@ fn run_source_failure_case(c: &Case) -> Result<(), String> {
     // the deep value as the first item of an outer array, as the first member value of an outer
     // object, and after the comma that follows it - the parser holds the finished deep value in
     // a container under construction when the source fails
+    // ending 19: a source that is not fused - it answers `None` once and an error on every later
+    // poll (a reader that hangs up after its end): whatever the parser makes of it, it returns
+    if c.ending == 19 {
+        let o = Options {
+            accept_truncated_surrogate_pair: c.rec.0,
+            accept_invalid_codepoints: c.rec.1,
+        };
+        let h = std::thread::Builder::new()
+            .stack_size(c.stack_kib * 1024)
+            .spawn(move || -> Result<(), String> {
+                let mut chars = doc.chars();
+                let mut ended = false;
+                let src = std::iter::from_fn(|| match chars.next() {
+                    Some(c) => Some(Ok(c)),
+                    None if !ended => {
+                        ended = true;
+                        None
+                    }
+                    None => Some(Err(7u8)),
+                });
+                if let Ok((v, _)) = Value::parse_utf8_with(src, o) {
+                    release(v);
+                }
+                Ok(())
+            })
+            .map_err(|e| format!("cannot spawn thread: {e}"))?;
+        return match h.join() {
+            Ok(r) => r,
+            Err(_) => Err("the parsing thread panicked".into()),
+        };
+    }
     let (doc, ending) = if c.ending >= 10 {
         let place = (c.ending - 10) / 3;
         let doc = match place {
@@ -630,7 +661,8 @@ fn case_json(i: usize, c: &Case, tier: Tier) -> J {
     let ending = ["closed", "unclosed", "wrong innermost closer", "closed + trailing garbage", "wrong outermost closer", "deep first array item then a bad item", "deep first member then a bad key", "closed + an ill-formed byte", "closed + whitespace + a truncated UTF-8 sequence", "closed, then the character source fails",
         "first item of an outer array + an ill-formed byte", "first item of an outer array + whitespace + a truncated UTF-8 sequence", "first item of an outer array, then the character source fails",
         "first member of an outer object + an ill-formed byte", "first member of an outer object + whitespace + a truncated UTF-8 sequence", "first member of an outer object, then the character source fails",
-        "first item of an outer array + comma + an ill-formed byte", "first item of an outer array + comma + whitespace + a truncated UTF-8 sequence", "first item of an outer array + comma, then the character source fails"][c.ending as usize];
+        "first item of an outer array + comma + an ill-formed byte", "first item of an outer array + comma + whitespace + a truncated UTF-8 sequence", "first item of an outer array + comma, then the character source fails",
+        "closed, then a source that is not fused: None once, an error on every later poll"][c.ending as usize];
     let entry = ["parse_slice_with", "parse_str_with", "parse_slice_with from a destructor while the thread is unwinding"][c.entry as usize];
     json!({
         "kind": "pump",
